@@ -79,6 +79,16 @@ Theorem C07_collection_overflow_is_error :
   vo_err out = Some VOverflow /\ vo_asked out = false /\ s' = s.
 Proof. exact overflow_is_error_without_call. Qed.
 
+(* zero-sized element types: capacity usize::MAX ("unlimited"), never an allocator call, the length
+   never passes usize::MAX, an operation that would overflow it is an error that changes nothing *)
+Theorem C07_zst_vector_never_overflows :
+  forall al s o grant shrunk got,
+  vcap s = W - 1 -> 0 <= vlen s <= vcap s -> vop_ok o ->
+  let '(s', out) := vstep true 0 al s o grant shrunk got in
+  vcap s' = W - 1 /\ 0 <= vlen s' <= W - 1 /\ (vo_err out <> None -> s' = s) /\ vo_asked out = false /\
+  (forall n, (o = VExtend n \/ (o = VPush /\ n = 1)) -> (vo_err out = None <-> vlen s + n <= W - 1)).
+Proof. exact zst_vector_never_overflows. Qed.
+
 Print Assumptions C07_failed_alloc_keeps_current_chunk.
 Print Assumptions C07_fresh_chunk_fits.
 Print Assumptions C07_refused_is_error.
@@ -88,3 +98,4 @@ Print Assumptions C07_state_after_failure_satisfies_invariant.
 Print Assumptions C07_claimed_alloc_fails.
 Print Assumptions C07_collection_failure_is_atomic.
 Print Assumptions C07_collection_overflow_is_error.
+Print Assumptions C07_zst_vector_never_overflows.
